@@ -338,12 +338,12 @@ theorem lock_released_on_every_path (lf : LockFacts) (h : lf.all = true) (inflig
     (connDoL lf inflight o v topic (c, false)).2.2 = false ∧
     (inflight = false → (connDoL lf inflight o v topic (c, false)).1 = (connDo o v topic c).1 ∧
                         (connDoL lf inflight o v topic (c, false)).2.1 = (connDo o v topic c).2) := by
-  have hh : lf.peekErr = true ∧ lf.noProgress = true ∧ lf.yield = true ∧ lf.take = true ∧ lf.doBody = true ∧
+  have hh : lf.peekErr = true ∧ lf.noProgress = true ∧ lf.yield = true ∧ lf.take = true ∧ lf.leave = true ∧ lf.doBody = true ∧
       lf.apiVersions = true ∧ lf.batchHandover = true ∧ lf.batchClose = true := by
     simpa [LockFacts.all, and_assoc] using h
-  obtain ⟨h1, h2, _, h4, h5, h6, _, _⟩ := hh
+  obtain ⟨h1, h2, _, h4, hl, h5, h6, _, _⟩ := hh
   have hrel : ∀ p, released lf o.closeOnErr p = true := by
-    intro p; cases p <;> simp [released, h1, h2, h4, h5, h6]
+    intro p; cases p <;> simp [released, h1, h2, h4, h5, h6, hl]
   refine ⟨by simp [connDoL, hrel], ?_⟩
   intro hi
   subst hi
@@ -351,13 +351,13 @@ theorem lock_released_on_every_path (lf : LockFacts) (h : lf.all = true) (inflig
 
 theorem lock_released_fetch (lf : LockFacts) (h : lf.all = true) (fixed : Bool) (v : Nat) (off : Int) (b : Body) (c : Conn) :
     (connFetchL lf fixed v off b (c, false)).2.2 = false := by
-  have hh : lf.peekErr = true ∧ lf.noProgress = true ∧ lf.yield = true ∧ lf.take = true ∧ lf.doBody = true ∧
+  have hh : lf.peekErr = true ∧ lf.noProgress = true ∧ lf.yield = true ∧ lf.take = true ∧ lf.leave = true ∧ lf.doBody = true ∧
       lf.apiVersions = true ∧ lf.batchHandover = true ∧ lf.batchClose = true := by
     simpa [LockFacts.all, and_assoc] using h
-  obtain ⟨h1, h2, _, h4, h5, _, h7, h8⟩ := hh
+  obtain ⟨h1, h2, _, h4, hl, h5, _, h7, h8⟩ := hh
   unfold connFetchL
   simp only [Bool.false_and, Bool.false_eq_true, ↓reduceIte, Bool.false_or, Bool.not_eq_eq_eq_not, Bool.not_false]
-  cases exitPath false c <;> simp [released, h1, h2, h4, h5, h7, h8]
+  cases exitPath false c <;> simp [released, h1, h2, h4, h5, h7, h8, hl]
 
 /-- once the lock is leaked, every operation whose request goes out blocks — result and state never change again -/
 theorem leaked_lock_blocks (lf : LockFacts) (inflight : Bool) (o : OpSpec) (v : Nat) (topic : Bytes) (c : Conn)
